@@ -26,7 +26,18 @@ enum Kind {
 #[derive(Clone, Copy, Debug, PartialEq, Eq)]
 struct Spec {
   kind: Kind,
+  /// whole ticks; `Some(0)` stands for a delay of 999 microseconds (shorter
+  /// than anything the virtual clock resolves: only the timer request shows it)
   delay: Option<u64>,
+}
+
+const SUB_MS: std::time::Duration = std::time::Duration::from_micros(999);
+fn delay_of(d: Option<u64>) -> Option<std::time::Duration> {
+  match d {
+    None => None,
+    Some(0) => Some(SUB_MS),
+    Some(n) => Some(ticks(n)),
+  }
 }
 
 #[derive(Default)]
@@ -125,7 +136,7 @@ fn task_job(specs: Vec<Spec>, len: usize, jumps: bool) -> Job {
       let log: Shared = Arc::new(Mutex::new(Log::default()));
       let ctl = Ctl::default();
       let script = Script::default();
-      let d = s.delay.map(ticks);
+      let d = delay_of(s.delay);
       let handle = match s.kind {
         Kind::Once => Handle::N(sched.schedule(OnceTask::new(once_body, log.clone()), d)),
         Kind::Subscribing => {
@@ -277,6 +288,16 @@ fn task_job(specs: Vec<Spec>, len: usize, jumps: bool) -> Job {
             }
           }
         }
+        // a configured delay is really waited for: the timer was asked for
+        // exactly that duration before the body ran
+        if let (Some(d), false) = (delay_of(t.spec.delay), runs.is_empty()) {
+          if !world::timer_log().iter().any(|r| r.dur == d) {
+            obs.fail(
+              "c19:delay-not-awaited",
+              format!("{specs:?} after [{}]: task {i} ran although no timer of its delay {d:?} was ever requested", hist.join(" ")),
+            );
+          }
+        }
         if let Some(n) = t.cancelled_runs {
           if runs.len() > n {
             obs.fail(
@@ -328,7 +349,7 @@ pub fn plan(tier: Tier) -> Plan {
     Kind::RepeatFirst(1, 2, 3),
     Kind::Fut,
   ];
-  let delays = [None, Some(1), Some(2)];
+  let delays = [None, Some(0), Some(1), Some(2)];
   let mut specs = vec![];
   for k in kinds {
     for d in delays {
